@@ -65,10 +65,24 @@ type lookupCfg struct {
 	// addresses of a seed peer the node's peerstore holds when the lookup
 	// begins (the peer goes into the routing table either way).
 	SeedAddrs func(p *simnet.Peer) []ma.Multiaddr
-	CancelAt          int // step at which the context is cancelled (0 = never)
-	FaultLevel        int // 0 none, 1 light, 2 heavy
-	Lies              bool
-	Universe          string // "random" | "full" | "kbucket"
+	// Arrange (optional hook, nil = nearest first as the responder built it):
+	// called once per reply on the simulator goroutine with the closer-peer
+	// records the responder is about to send; returns the same records in the
+	// order in which they go on the wire (it must neither add nor drop one).
+	Arrange func(responder *simnet.Peer, recs []*pb.Message_Peer) []*pb.Message_Peer
+	// Prepare (optional hook): called once on the simulator goroutine after
+	// the routing table was seeded and before the lookup starts (earlier
+	// history of the node: what its peerstore still holds about peers).
+	Prepare func(h *H1)
+	// KeyFor (optional hook, nil = Key is used as it stands): called once the
+	// universe exists (the ghosts of a lying world are added later; their
+	// identities are simnet.MakeID(0xdead, i)); its result replaces Key. Lets a
+	// scenario look up a key that is the identity of a member of the universe.
+	KeyFor     func(u *simnet.Universe) string
+	CancelAt   int // step at which the context is cancelled (0 = never)
+	FaultLevel int // 0 none, 1 light, 2 heavy
+	Lies       bool
+	Universe   string // "random" | "full" | "kbucket"
 }
 
 type stampedEvent struct {
@@ -138,6 +152,9 @@ func genLookupCfg(s *sim.Sim, universe string) lookupCfg {
 func buildLookupWorld(s *sim.Sim, c *lookupCfg) (*H1, error) {
 	u := simnet.NewUniverse(uint64(s.Draw("universe", 1<<16)), c.N)
 	rng := newSubRng(s, "world")
+	if c.KeyFor != nil {
+		c.Key = c.KeyFor(u)
+	}
 	keyKad := simnet.KadOfKey(c.Key)
 
 	var opts []dht.Option
@@ -347,6 +364,9 @@ func (o *lookupObs) lookupActions() []sim.Action {
 					return
 				}
 				closer := h.closerFor(x, simnet.KadOfKey(string(r.Req.GetKey())))
+				if o.cfg.Arrange != nil {
+					closer = o.cfg.Arrange(x, closer)
+				}
 				good := map[peer.ID]bool{}
 				for _, c := range closer {
 					if o.cfg.AddrFilter {
@@ -424,6 +444,9 @@ func runLookup(s *sim.Sim, c lookupCfg) *lookupObs {
 		for _, p := range seeds {
 			o.seeded[p.ID] = true
 		}
+	}
+	if c.Prepare != nil {
+		c.Prepare(h)
 	}
 	o.stampsPre = h.DHT.RoutingTable().GetTrackedCplsForRefresh()
 
